@@ -20,7 +20,6 @@ import (
 	"strconv"
 	"strings"
 	"sync"
-	"sync/atomic"
 	"testing"
 	"testing/synctest"
 	"time"
@@ -132,7 +131,8 @@ type Sim struct {
 	shortStall  bool
 	calm        bool // no more scheduler-made faults (stalls, delayed goroutines)
 	lastParked  int  // size of the parked set at the last release
-	jitter      atomic.Int64
+	jitterN     int64
+	deadlines   map[int64]struct{} // instants (ns since start) at which a timer made through Jitter fires
 	starveOrder int
 	starveFocus []string
 	starveSub   string // development aid: SIM_STARVE_SITE=<substring> starves exactly the matching sites
@@ -541,13 +541,62 @@ func Settle() {
 // that no two timers share a deadline. The Go runtime fires timers with equal deadlines in an
 // order that depends on the internal state of its timer heaps, which nothing in the simulation
 // controls; a goroutine blocked in a select on two such timers would take either case.
-func Jitter(d time.Duration) time.Duration {
+//
+// The amount is a hash of (select seed, call number), not a linear function of the call number:
+// with d + n*c the k-th tick of a ticker created by call a coincides with a timer of k times the
+// period created at the same instant by call k*a (seen in the HLS muxer: 10 s clean-up ticker,
+// call 1, second tick = 20 s activity timer, call 2). On top of that every deadline handed out
+// is remembered, and a new timer whose deadline (for a ticker: whose first ticks) would equal a
+// remembered one gets the next free amount, so ties between timers made here cannot occur at all.
+//
+//go:norace
+func Jitter(d time.Duration) time.Duration { return jitterFor(d, false) }
+
+// JitterTick is Jitter for the period of a ticker.
+//
+//go:norace
+func JitterTick(d time.Duration) time.Duration { return jitterFor(d, true) }
+
+const (
+	jitterRange = 999983
+	jitterTicks = 2048 // ticks of a ticker whose instants are kept free of other deadlines
+)
+
+//go:norace
+func jitterFor(d time.Duration, tick bool) time.Duration {
 	s := current()
 	if s == nil || d <= 0 {
 		return d
 	}
-	n := s.jitter.Add(1)
-	return d + time.Duration((n*7919)%999983)
+	s.lk()
+	defer s.ulk()
+	s.jitterN++
+	if s.deadlines == nil {
+		s.deadlines = map[int64]struct{}{}
+	}
+	now := int64(time.Since(s.start))
+	j := int64(hash64(s.cfg.SelSeed|1, uint64(s.jitterN)) % jitterRange)
+	nt := int64(1)
+	if tick {
+		nt = jitterTicks
+	}
+	for try := 0; try < jitterRange; try++ {
+		p := int64(d) + 1 + j
+		free := true
+		for k := int64(1); k <= nt && free; k++ {
+			_, taken := s.deadlines[now+k*p]
+			free = !taken
+		}
+		if free {
+			for k := int64(1); k <= nt; k++ {
+				s.deadlines[now+k*p] = struct{}{}
+			}
+			return time.Duration(p)
+		}
+		s.counters.add("sim.jitter-bump", 1) // not a fault: reported under coverage.counters only
+		j = (j + 1) % jitterRange
+	}
+	return d + time.Duration(1+j)
 }
 
 // MainDone tells the scheduler that the harness main goroutine has finished.
